@@ -906,6 +906,8 @@ class C09Distance(Monitor):
     def on_filter(self, flt, before, out, tree):
         name = type(flt).__name__
         if name in ("FarEnough", "NBC_FarEnough"):
+            if name == "NBC_FarEnough" and self.ctx.prev is not None and any(not d_.is_active for lvl_ in tree.levels[1:] for d_ in lvl_):
+                self.cov("second_tree_of_a_reuse_pair_filtered_against_finished_demes")
             o = getattr(flt, "norm_ord", 2)
             if o != 2:
                 for parent, inds in before.items():
